@@ -291,9 +291,10 @@ func (c *container) sendLoop() {
 			}
 			verifPoint(vpHostSendPre, int(cmd.Cmd.Cmd))
 			if err := c.socket.SendMsg(cmd.Cmd, cmd.Msg); err != nil {
-				if errors.Is(err, errPayloadTooLarge) {
-					// a request that does not fit one message was not sent: it fails that call (answered here
-					// in the container's place), the transport is intact
+				if errors.Is(err, errPayloadTooLarge) || errors.Is(err, syscall.EBADF) || errors.Is(err, syscall.EINVAL) {
+					// a request that does not fit one message, or whose descriptors the kernel refuses to pass (one
+					// is not open: EBADF; more than one message may carry: EINVAL), was not sent: it fails that call
+					// (answered here in the container's place), the transport is intact
 					select {
 					case c.recvCh <- recvReply{Reply: reply{Error: &errorReply{Msg: err.Error()}}}:
 						continue
